@@ -397,6 +397,8 @@ class Interp:
             key = self.eval(target.slice, env, mod)
             if isinstance(obj, (list, dict)):
                 obj[_hashable(key)] = value
+            elif getattr(type(obj), "__lift_host__", False) and hasattr(obj, "__setitem__"):
+                obj[key] = value
             else:
                 raise Unsupported(f"subscript store on {type(obj).__name__}")
         elif isinstance(target, ast.Attribute):
@@ -654,6 +656,8 @@ class Interp:
             m, _ = self.find_method(self.obj_class(obj), "__getitem__")
             if m is not None:
                 return self.call_function(m, [key], {}, self_obj=obj)
+        if getattr(type(obj), "__lift_host__", False) and hasattr(obj, "__getitem__"):
+            return obj[_hashable(key) if isinstance(key, list) else key]
         raise Unsupported(f"subscript on {type(obj).__name__} ({norm(node) if node is not None else ''})")
 
     def e_Slice(self, e, env, mod):
@@ -1061,14 +1065,16 @@ def _b_isinstance(x, cls):
 
 def _b_sum(seq, start=0):
     acc = start
-    for x in seq:
+    for x in _it(seq):
         acc = acc + x if not (isinstance(acc, int) and acc == 0 and isinstance(x, T)) else x
     return acc
 
 
 def _b_len(x):
-    if isinstance(x, T):
-        return len(x)
+    if isinstance(x, Obj):
+        if "__len__" in x.attrs:
+            return x.attrs["__len__"]
+        raise Unsupported(f"len() of {x.kind}")
     return len(x)
 
 
@@ -1107,16 +1113,24 @@ def _b_min(*a, **kw):
 
 
 def _b_sorted(x, key=None, reverse=False):
-    return sorted(x, key=key, reverse=reverse)
+    return sorted(_it(x), key=key, reverse=reverse)
+
+
+def _it(x):
+    if isinstance(x, Obj):
+        if "__iter__" in x.attrs:
+            return list(x.attrs["__iter__"])
+        raise Unsupported(f"iteration over {x.kind}")
+    return list(x)
 
 
 BUILTINS = {
     "len": _b_len,
     "range": range,
-    "enumerate": lambda x, start=0: list(enumerate(list(x), start)),
-    "zip": lambda *a, strict=False: list(zip(*[list(x) for x in a])),
-    "list": lambda x=(): list(x),
-    "tuple": lambda x=(): tuple(x),
+    "enumerate": lambda x, start=0: list(enumerate(_it(x), start)),
+    "zip": lambda *a, strict=False: list(zip(*[_it(x) for x in a])),
+    "list": lambda x=(): _it(x),
+    "tuple": lambda x=(): tuple(_it(x)),
     "dict": lambda *a, **k: dict(*a, **k),
     "set": lambda x=(): set(x),
     "frozenset": lambda x=(): frozenset(x),
@@ -1130,11 +1144,11 @@ BUILTINS = {
     "str": lambda x="": str(x),
     "repr": lambda x: repr(x),
     "sorted": _b_sorted,
-    "reversed": lambda x: list(reversed(list(x))),
-    "any": lambda x: any(x),
-    "all": lambda x: all(x),
-    "map": lambda f, *a: [f(*xs) for xs in zip(*a)],
-    "filter": lambda f, a: [x for x in a if (f(x) if f else x)],
+    "reversed": lambda x: list(reversed(_it(x))),
+    "any": lambda x: any(_it(x)),
+    "all": lambda x: all(_it(x)),
+    "map": lambda f, *a: [f(*xs) for xs in zip(*[_it(x) for x in a])],
+    "filter": lambda f, a: [x for x in _it(a) if (f(x) if f else x)],
     "isinstance": _b_isinstance,
     "slice": slice,
     "Ellipsis": Ellipsis,
